@@ -68,8 +68,9 @@ void ThreadPool::terminate()
     terminate_ = true;
     // wake up all worker threads and let them terminate.
     cv_jobs_.notify_all();
-    // notify LoopUntilTerminate in case all threads are idle.
-    cv_finished_.notify_one();
+    // notify LoopUntilTerminate in case all threads are idle (there may be
+    // more than one waiter).
+    cv_finished_.notify_all();
 }
 
 size_t ThreadPool::done() const
@@ -154,7 +155,8 @@ void ThreadPool::worker(size_t p)
 
             // relock mutex before signaling condition.
             lock.lock();
-            cv_finished_.notify_one();
+            // several threads may wait for emptiness or termination
+            cv_finished_.notify_all();
         }
     }
 }
